@@ -89,8 +89,15 @@ def integer(i):
 
 
 # ------------------------------------------------------------------ numbers
+# classification aid only: the engine keeps xs:float values in double precision (a listed, test-pinned deviation);
+# with this flag the model does the same, which tells whether a mismatch is explained by that deviation alone
+FLOAT_AS_DOUBLE = [False]
+
+
 def f32(x):
     """round a Python float to the nearest binary32 value"""
+    if FLOAT_AS_DOUBLE[0]:
+        return x
     if x != x or x in (math.inf, -math.inf):
         return x
     try:
